@@ -79,10 +79,14 @@ def generate(ctx):
             extra = [rng.choice([7, 2.5, "not_a_column", None]) for _ in range(rng.randint(0, 2))]
             if extra and isinstance(extra[0], str) and extra[0] in nf.columns:
                 extra = []
+            if extra and rng.random() < 0.4:
+                # after the first non-column argument everything is an extra argument, also a string that spells a column
+                extra += [rng.choice(["x", f"n.{names[0]}", "other.q"])]
             kwargs = {k: rng.choice([1, "z"]) for k in rng.sample(["alpha", "beta"], rng.randint(0, 2))}
             shape = rng.choice(["scalar", "tuple", "dict", "dotted"]) if kind == "reduce" else "dotted"
             calls = []
             counter = [0]
+            dotted_variant = rng.randint(0, 1)
 
             def func(*a, **kw):
                 calls.append((a, dict(kw)))
@@ -94,7 +98,10 @@ def generate(ctx):
                     return (k, k + 0.5)
                 if shape == "dict":
                     return {"u": k, "v": f"s{k}"}
-                return {"u": k, "out.a": np.arange(k % 3), "out.b": np.arange(k % 3) * 2.0}
+                if dotted_variant == 0:
+                    return {"u": k, "out.a": np.arange(k % 3), "out.b": np.arange(k % 3) * 2.0}
+                # plain outputs whose names START like the nested output's name, interleaved with the dotted ones
+                return {"out_n": k + 1, "out.a": np.arange(k % 3), "u": k, "outmax": 2 * k, "out.b": np.arange(k % 3) * 2.0}
 
             def run():
                 out = nf.reduce(func, *sel, *extra, **kwargs)
@@ -110,6 +117,11 @@ def generate(ctx):
                     assert m == 0 or ([int(v) for v in out["u"]] == list(range(m)) and list(out["v"]) == [f"s{k}" for k in range(m)])
                 elif m:
                     assert [int(v) for v in out["u"]] == list(range(m))
+                    if dotted_variant == 1:
+                        assert [int(v) for v in out["out_n"]] == [k + 1 for k in range(m)] and [int(v) for v in out["outmax"]] == [2 * k for k in range(m)], \
+                            "plain outputs lost or changed"
+                    assert sorted(map(str, out.columns)) == sorted(["u", "out"] + (["out_n", "outmax"] if dotted_variant else [])), \
+                        f"result columns {list(out.columns)}: not exactly what the function returned"
                     assert "out" in out.nested_columns and list(out["out"].nest.fields) == ["a", "b"], "dotted outputs not packed into a nested column"
                     got = out["out"].array.chunked_array.to_pylist()
                     assert [None if g is None else (list(g["a"]), list(g["b"])) for g in got] == \
@@ -123,7 +135,7 @@ def generate(ctx):
             impl_calls = []
             for j, (a, kw) in enumerate(calls):
                 ncol = len(sel)
-                ok_extra = ok_extra and len(a) == ncol + len(extra) and list(a[ncol:]) == extra and kw == kwargs
+                ok_extra = ok_extra and len(a) == ncol + len(extra) and [repr(x_) for x_ in a[ncol:]] == [repr(x_) for x_ in extra] and kw == kwargs
                 rowt = []
                 for c, v in zip(sel, a[:ncol]):
                     if c in ("x", "y"):
